@@ -154,6 +154,17 @@ Section Thm.
     rewrite R. f_equal. apply (sim_eq X). exact S.
   Qed.
 
+  (* ... over a carrier whose `==` is Leibniz equality: the very same path *)
+  Theorem abs_noST_leibniz (X : LeibnizOK N) p :
+    path_wf N p = true -> rt false false false p = Ok p.
+  Proof.
+    intros W. pose proof (leibniz_eqb_ok N X) as E.
+    destruct (roundtrip_sim N E none_ok coinc_ok sfix mfix false false (or_introl eq_refl)
+                (or_introl eq_refl) zfix false p W (closing_open zfix p)
+                (restart_noST sfix mfix zfix false p)) as (q & R & S).
+    rewrite R. f_equal. apply (sim_eq X). exact S.
+  Qed.
+
   (* use_closed_attrib: the code as written, when the closing segment is a Line *)
   Theorem closeZ_partial (E : EqbOK N) useST p :
     (useST = false \/ (sfix = true /\ SubCongOK N) \/ (LeibnizOK N /\ ReflectOK N)) ->
@@ -252,6 +263,22 @@ Section Thm.
     - apply d_cmds_grammatical, (segments_nonempty (exact_eqb_ok N X)); assumption.
     - left; reflexivity.
     - left; reflexivity.
+  Qed.
+
+  (* kinds, order and arc flags, any carrier; without use_closed_attrib
+     nothing is dropped and nothing added *)
+  Theorem shape_open (F1 : eqb N (one N) (zero N) = false) (F0 : eqb N (zero N) (zero N) = true)
+          none_ok coinc_ok zfix sfix mfix useST rel p :
+    p <> [] -> forallb (radii_ok N) p = true -> no_arc_collapse N rel zfix false p = true ->
+    exists q, roundtrip N none_ok coinc_ok zfix sfix mfix useST false rel p = Ok q
+              /\ map shape_of q = map shape_of p.
+  Proof.
+    intros NE W A.
+    assert (D : d_segments N zfix false p = p) by (destruct p; reflexivity).
+    destruct (roundtrip_shape N F1 F0 none_ok coinc_ok sfix mfix useST rel zfix false p W)
+      as (q & cl & R & Sh & C); [rewrite D; exact NE|exact A|].
+    exists q. split; [exact R|]. rewrite D in Sh.
+    destruct C as [->|[_ C]]; [rewrite app_nil_r in Sh; exact Sh|discriminate C].
   Qed.
 
   (* ---------------------------------------------------------------- *)
